@@ -104,3 +104,12 @@ mut('C07', 'source-not-debited', [('models.py', "            source_sector.AddCa
 ben('C07', 'send-rename-locals', [(EX, "        currency = source_sector.CurrencyZone.Currency\n        currency_variable_name = self.Parent['XR'].GetVariableName(currency)\n        self.EquationBlock['NET_' + currency].AddTerm('+' + variable_name)\n        self.EquationBlock['NET_NUMERAIRE'].AddTerm(\n            '-' + variable_name + '*' + currency_variable_name)",
     "        cur = source_sector.CurrencyZone.Currency\n        rate_name = self.Parent['XR'].GetVariableName(cur)\n        self.EquationBlock['NET_' + cur].AddTerm('+' + variable_name)\n        self.EquationBlock['NET_NUMERAIRE'].AddTerm(\n            '-' + variable_name + '*' + rate_name)")])
 ben('C07', 'cross-rate-description-text', [(EX, "desc = 'Cross rate: {0} to buy 1 {1} (Standard quote convention: \"{2}/{3}.\")'.format(", "desc = 'Cross rate - {0} per {1} (quote \"{2}/{3}\")'.format(")])
+
+# ---- C18 ---------------------------------------------------------------------------------------------
+SD = 'sector_definitions.py'
+mut('C18', 'expectations-household-literal-good', [(SD, "        self.SetEquationRightHandSide('DEM_' + consumption_good_name,\n", "        self.SetEquationRightHandSide('DEM_GOOD',\n")], ['consumption_out_of_expected_income', 'KeyError'])
+mut('C18', 'expectations-household-drops-labour-name', [(SD, "                           alpha_fin=alpha_fin, consumption_good_name=consumption_good_name,\n                           labour_name=labour_name)", "                           alpha_fin=alpha_fin, consumption_good_name=consumption_good_name)")], 'labour_supply_named')
+mut('C18', 'business-profit-literal-good', [(SD, "'SUP_' + output_name + ' - DEM_' + labour_input_name)", "'SUP_GOOD - DEM_' + labour_input_name)")], 'profit_uses_the_given_names')
+mut('C18', 'zone-search-skips-first-country', [('models.py', "        out = []\n        for c in self.CountryList:\n            out.extend(c.GetSectors())", "        out = []\n        for c in self.CountryList[1:]:\n            out.extend(c.GetSectors())")], ['every_sector', 'CurrencyZone.GetSectors'])
+mut('C18', 'zone-lookup-first-match', [('models.py', "                if out is not None:\n                    raise LogicError(\"\"\"Multiple sectors", "                if out is not None and False:\n                    raise LogicError(\"\"\"Multiple sectors")], ['the_only', 'inv_step'])
+ben('C18', 'zone-sectors-list-concat', [('models.py', "        out = []\n        for c in self.CountryList:\n            out.extend(c.GetSectors())\n        return out", "        found = []\n        for c in self.CountryList:\n            found.extend(c.GetSectors())\n        return found")])
